@@ -180,7 +180,8 @@ pub fn model_obs(m: &Melda) -> Value {
         objects.dedup();
         let mut packs = m.verif_applied_packs();
         packs.sort();
-        json!({"deltas": deltas, "trees": trees, "anchors": anchors, "objects": objects, "packs": packs})
+        let (_, stage) = m.verif_data_index();
+        json!({"deltas": deltas, "trees": trees, "anchors": anchors, "objects": objects, "packs": packs, "read": read_res(m), "stage": stage})
     }));
     r.unwrap_or(Value::Null)
 }
@@ -304,7 +305,8 @@ impl World {
             emitted_items: vec![Items::new(); n],
             ptrace_on: backend == "sim",
         };
-        w.ptrace.push(js(&json!({"p": "init", "n": n})));
+        let acap: u64 = std::env::var("MELDA_ARRAYDESCRIPTORS_CACHE_CAP").ok().and_then(|x| x.parse().ok()).unwrap_or(16);
+        w.ptrace.push(js(&json!({"p": "init", "n": n, "acap": acap})));
         for i in 0..n {
             let res = if w.reps[i].m.is_some() { "ok" } else { "err" };
             w.emit("new", i, res, json!({}));
@@ -645,6 +647,8 @@ impl World {
         if res.is_err() {
             fails.push(("C08", "update returned an error on a well-formed document".into()));
         }
+        self.emit("update", r, if res.is_ok() { "ok" } else { "err" }, json!({"doc": doc}));
+        let m = self.reps[r].m.as_ref().unwrap();
         let rd = read_res(m);
         let expect = add_ids(doc, true);
         if arr_conf.is_empty() {
@@ -683,7 +687,6 @@ impl World {
             fails.push(("C04", "submitting the same document twice changed the replica".into()));
         }
         self.reps[r].last_doc = doc.clone();
-        self.emit("adopt", r, "ok", json!({}));
         if !arr_conf.is_empty() {
             self.stat("update_with_array_conflict");
         }
@@ -1041,6 +1044,8 @@ impl World {
         }
         let m = self.reps[r].m.as_ref().unwrap();
         let res = m.resolve_as(&uuid, &choice);
+        self.emit("resolve", r, if res.is_ok() { "ok" } else { "err" }, json!({"uuid": uuid, "rev": choice}));
+        let m = self.reps[r].m.as_ref().unwrap();
         let mut fails: Vec<(&str, String)> = vec![];
         match res {
             Err(e) => fails.push(("C07", format!("resolve_as a live leaf failed: {}", msg_prefix(&e.to_string())))),
@@ -1101,7 +1106,7 @@ impl World {
             Ok(Ok(_)) => fails.push(("C07", "resolving an object that is no longer in conflict succeeded".into())),
             Err(_) => fails.push(("C08", "resolve_as aborted".into())),
         }
-        self.emit("adopt", r, "ok", json!({}));
+        // (emitted right after the call, see above)
         for (p, w) in fails {
             self.fail(p, w);
         }
@@ -1156,7 +1161,8 @@ impl World {
             fails.push(("C15", format!("replaying an exported stage failed: {}", msg_prefix(&e.to_string()))));
         }
         let after = obs_full(m);
-        self.emit("adopt", r, "ok", json!({}));
+        let bodies = s.as_ref().and_then(|v| v.get("o")).cloned().unwrap_or(json!({}));
+        self.emit("adopt", r, "ok", json!({"bodies": bodies}));
         if after != before {
             fails.push(("C15", format!("export, discard and replay does not restore the staged state: {}", first_diff(&before, &after))));
         }
@@ -1169,6 +1175,7 @@ impl World {
         let m = self.reps[r].m.as_ref().unwrap();
         let read_before = read_res(m);
         let res = m.stage_full_snapshot();
+        let res_ok = res.is_ok();
         let mut fails: Vec<(&str, String)> = vec![];
         if let Err(e) = res {
             fails.push(("C08", format!("stage_full_snapshot failed: {}", msg_prefix(&e.to_string()))));
@@ -1177,7 +1184,7 @@ impl World {
         if rd != read_before {
             fails.push(("C12", format!("a full snapshot changed the visible document: before {} after {}", js(&read_before), js(&rd))));
         }
-        self.emit("adopt", r, "ok", json!({}));
+        self.emit("snapshot", r, if res_ok { "ok" } else { "err" }, json!({}));
         for (p, w) in fails {
             self.fail(p, w);
         }
@@ -1281,7 +1288,7 @@ impl World {
         let u = &objs[pick % objs.len()];
         let _ = m.delete_object(u);
         let rd = read_res(m);
-        self.emit("adopt", r, "ok", json!({}));
+        self.emit("delete", r, "ok", json!({"uuid": u}));
         if rd.get("ok").is_none() {
             self.fail("C08", format!("read fails after delete_object: {}", js(&rd)));
         }
